@@ -41,4 +41,11 @@ def obligations(tier):
         ob.desc = 'jls_core_fsr with symbolic 64-bit start/length that is NOT a window inside the signal (negative, zero, overshoot by any amount incl. 1, overflowing sums): error code, no access'
         ob.bound = 'signal of 1..%d samples; all 2^128 (start, length) pairs outside the signal' % (2 * ob.defines.count('x') + 8)
         o.append(ob)
+    # O6 raw API with a caller buffer of any size (same harness as C04 O1_raw_rd_chunk: it also asserts 'accepted only if the on-disk size fits the caller's buffer'
+    # and 'nothing written beyond the caller's buffer size', which is the C10 clause for jls_raw_rd / jls_raw_rd_payload; fourth-round seed C10c-m1)
+    pm = 12 if tier == 'quick' else 24
+    o.append(Obl('O6_raw_rd_caller_buffer', 'c04_raw.c', units=['raw.c'], stubs=['log_stub.c', 'membk.c', 'crcfun.c'], defines=['MODE_RD=1', 'PMAX=%d' % pm, 'MEMBK_SIZE=256'],
+                 unwind=pm + 50, timeout=900, backend=PORTFOLIO,
+                 desc='jls_raw_rd on a symbolic chunk with a symbolic caller buffer size: success only if payload + pad + crc fits the buffer, nothing written beyond it, TOO_BIG otherwise',
+                 bound='payload_length <= %d (+8), symbolic file length and caller buffer size' % pm))
     return o
